@@ -12,9 +12,12 @@ structure DState where
   failAt : Option Nat := none
   failErr : Nat := 11
   tick : Nat := 0
+  start : Nat := 0
   onces : List (Nat × List Nat) := []
+  /-- per slot: for every join-all of its body in order, whether it is the one inside `X` (result not observable) -/
+  voids : List (Nat × List Bool) := []
 
-def parseAction (s0 : String) : Option Action :=
+def parseAction (s0 : String) : Option (List Action) :=
   let named := s0.endsWith "n" && s0.length > 1
   let s := if named then s0.dropRight 1 else s0
   match s.toList with
@@ -23,25 +26,36 @@ def parseAction (s0 : String) : Option Action :=
     let num : Option Nat := if r.isEmpty then some 0 else (String.ofList r).toNat?
     let slot (k : Nat) : Bool := 1 ≤ k && k < 8
     match c, num with
-    | 'L', some k => if slot k then some (.launch k false 0 named) else none
-    | 'P', some k => if slot k then some (.launch k true 0 named) else none
-    | 'Q', some k => if slot k then some (.launch k true 1 named) else none
-    | 'R', some k => if slot k then some (.launch k true 2 named) else none
-    | 'J', some k => if slot k && !named then some (.join k) else none
-    | 'D', some k => if slot k && !named then some (.cleanup k) else none
-    | 'A', some k => if named then none else some (.atexit k)
-    | 'C', some _ => if named then none else some .getCount
-    | 'W', some _ => if named then none else some .joinAll
-    | 'T', some k => if named then none else some (.setTimeout k)
-    | 'Y', some _ => if named then none else some .yield
-    | 'S', some k => if named then none else some (.sleep k)
-    | 'O', some k => if named then none else some (.once k)
-    | 'I', some _ => if named then none else some .libInit
-    | 'N', some _ => if named then none else some .getName
-    | 'X', some _ => if named then none else some .joinAll   -- aws_common_library_clean_up = join_all_managed + unregistering
+    | 'L', some k => if slot k then some [(.launch k false 0 named)] else none
+    | 'P', some k => if slot k then some [(.launch k true 0 named)] else none
+    | 'Q', some k => if slot k then some [(.launch k true 1 named)] else none
+    | 'R', some k => if slot k then some [(.launch k true 2 named)] else none
+    | 'J', some k => if slot k && !named then some [(.join k)] else none
+    | 'D', some k => if slot k && !named then some [(.cleanup k)] else none
+    | 'A', some k => if named then none else some [(.atexit k)]
+    | 'C', some _ => if named then none else some [.getCount]
+    | 'W', some _ => if named then none else some [.joinAll]
+    | 'T', some k => if named then none else some [(.setTimeout k)]
+    | 'Y', some _ => if named then none else some [.yield]
+    | 'S', some k => if named then none else some [(.sleep k)]
+    | 'O', some k => if named then none else some [(.once k)]
+    | 'I', some _ => if named then none else some [.libInit]
+    | 'N', some _ => if named then none else some [.getName]
+    -- aws_common_library_clean_up (= join_all_managed, result ignored, + unregistering) followed by
+    -- aws_common_library_init (re-initialises the pending list) and a read of the managed count
+    | 'X', some _ => if named then none else some [.joinAll, .libReinit, .getCount]
+    -- launches in which a pthread_attr_* step fails: E attr_init (ENOMEM), F setstacksize, G getstacksize (EINVAL): the
+    -- launch fails; H: setaffinity fails, the library retries without pinning (from there on an ordinary launch)
+    | 'E', some k => if slot k then some [.launchAttr k 12] else none
+    | 'F', some k => if slot k then some [.launchAttr k 22] else none
+    | 'G', some k => if slot k then some [.launchAttr k 22] else none
+    | 'H', some k => if slot k then some [.launch k false 0 named] else none
     | _, _ => none
 
-def parseActions (l : List String) : Option (List Action) := l.mapM parseAction
+def parseActions (l : List String) : Option (List Action) := (l.mapM parseAction).map List.flatten
+
+def voidsOf (l : List String) : List Bool :=
+  l.filterMap (fun a => if a.startsWith "W" then some false else if a.startsWith "X" then some true else none)
 
 def mkProg (d : DState) : Prog :=
   let find (k : Nat) := d.slots.find? (fun e => e.1 == k)
@@ -49,7 +63,7 @@ def mkProg (d : DState) : Prog :=
     managed := fun k => match find k with | some e => e.2.1 | none => false
     body := fun k => if k = 0 then d.mainActs else match find k with | some e => e.2.2 | none => []
     onceRegs := fun i => match d.onces.find? (fun e => e.1 == i) with | some e => e.2 | none => []
-    failAt := d.failAt, failErr := d.failErr, tick := d.tick }
+    failAt := d.failAt, failErr := d.failErr, tick := d.tick, start := d.start }
 
 def alive (s : State) (k : Nat) : Bool :=
   let r := (s.th k).status.rank
@@ -214,6 +228,20 @@ def showEv : Ev → List String
   | .joinAllBegin b => [s!"P joinall begin s{b}"]
   | .joinAllRet _ ok _ => [s!"P joinall rc={if ok then "OK" else "ERR"}"]
 
+/-- the P lines of the log (oldest first); join-all lines carry the virtual time of the event (`times`, oldest first)
+    and the join-all inside `X` prints `VOID` (aws_common_library_clean_up returns nothing) -/
+def showLog (voids : Nat → List Bool) : List Ev → List Nat → List (Nat × Nat) → List String
+  | [], _, _ => []
+  | e :: r, times, seen =>
+    match e with
+    | .joinAllBegin b => s!"P joinall begin s{b} t={times.headD 0}" :: showLog voids r (times.drop 1) seen
+    | .joinAllRet b ok _ =>
+      let i := match seen.find? (fun x => x.1 == b) with | some x => x.2 | none => 0
+      let v := (voids b)[i]?.getD false
+      s!"P joinall rc={if v then "VOID" else if ok then "OK" else "ERR"} t={times.headD 0}" ::
+        showLog voids r (times.drop 1) ((b, i + 1) :: seen.filter (fun x => x.1 != b))
+    | _ => showEv e ++ showLog voids r times seen
+
 def showW (e : WEv) : String := s!"W ev t{e.t} {e.kind} {e.obj} {e.aux}"
 
 def blockedDesc (s : State) : String :=
@@ -238,7 +266,9 @@ def runCase (d : DState) (mode : Nat) (list : List Int) : List String :=
   let dl := if out == .deadlock then 1 else 0
   let ll := if out == .livelock then 1 else 0
   let cnt := if out == .finished then s.count else 0
-  (s.log.reverse.flatMap showEv) ++
+  let voids (k : Nat) : List Bool := match d.voids.find? (fun e => e.1 == k) with | some e => e.2 | none => []
+  showLog voids s.log.reverse s.jlog.reverse [] ++
+  (if s.dropped > 0 then [s!"P reinit dropped={s.dropped}"] else []) ++
   [s!"P end deadlock={dl} livelock={ll} misuse={misuse} rerun=0 count={cnt} live={live} unjoined={unjoined}"] ++
   (if out != .finished then [s!"P blocked {blockedDesc s}"] else []) ++
   (if c.diverged then ["W diverged"] else []) ++
@@ -250,11 +280,12 @@ def step (d : DState) (t : List String) : DState × List String :=
   | "slot" :: k :: m :: acts =>
     match k.toNat?, parseActions acts with
     | some k, some a =>
-      if 1 ≤ k ∧ k < 8 ∧ (m == "M" ∨ m == "U") then ({ d with slots := (k, m == "M", a) :: d.slots }, []) else (d, ["bad-op"])
+      if 1 ≤ k ∧ k < 8 ∧ (m == "M" ∨ m == "U") then
+        ({ d with slots := (k, m == "M", a) :: d.slots, voids := (k, voidsOf acts) :: d.voids }, []) else (d, ["bad-op"])
     | _, _ => (d, ["bad-op"])
   | "main" :: acts =>
     match parseActions acts with
-    | some a => ({ d with mainActs := a }, [])
+    | some a => ({ d with mainActs := a, voids := (0, voidsOf acts) :: d.voids }, [])
     | none => (d, ["bad-op"])
   | ["fail", n, e] =>
     match n.toNat?, e.toNat? with
@@ -267,6 +298,10 @@ def step (d : DState) (t : List String) : DState × List String :=
   | ["tick", n] =>
     match parseU64? n with
     | some n => ({ d with tick := n }, [])
+    | none => (d, ["bad-op"])
+  | ["clock", n] =>
+    match parseU64? n with
+    | some n => ({ d with start := n }, [])
     | none => (d, ["bad-op"])
   | "run" :: "choices" :: l =>
     match l.mapM parseInt? with
